@@ -142,6 +142,11 @@ def add_world(T: Types, reg: Registry, orch_cls=None):
 
     def err(c):
         return spec_step_error(T, cell(c), c.arg("status"), c.arg("runner_id"))
+
+    def no_edge(c):
+        from .common import spec_edge
+        ost = Opt(T.Status)
+        return z3.Not(spec_edge(T, ost.some(T.Record.get(OREC.val(cell(c)), "status")), c.arg("status")))
     reg.add(Contract(
         key="Orchestrator._atomic_status_transition", shape="Orchestrator",
         params={"invocation_id": ID, "status": T.Status, "runner_id": OSTR}, result=T.Record, frame=["rec"],
@@ -150,7 +155,9 @@ def add_world(T: Types, reg: Registry, orch_cls=None):
         cases=[
             Case("unknown-id", when=lambda c: OREC.is_none(cell(c)), raises="KeyError", exact=True,
                  ensures=[("unchanged", lambda c: c.f("rec") == c.old("rec"))]),
-            Case("refused", when=lambda c: z3.And(OREC.is_some(cell(c)), err(c)), raises="InvocationStatusError",
+            Case("refused-no-such-edge", when=lambda c: z3.And(OREC.is_some(cell(c)), err(c), no_edge(c)), raises="InvocationStatusTransitionError", exact=True,
+                 ensures=[("unchanged", lambda c: c.f("rec") == c.old("rec"))]),
+            Case("refused-not-the-owner", when=lambda c: z3.And(OREC.is_some(cell(c)), err(c), z3.Not(no_edge(c))), raises="InvocationStatusOwnershipError", exact=True,
                  ensures=[("unchanged", lambda c: c.f("rec") == c.old("rec"))]),
             Case("accepted", when=lambda c: z3.And(OREC.is_some(cell(c)), z3.Not(err(c))), ensures=[
                 ("only-this-record", lambda c: c.f("rec") == z3.Store(c.old("rec"), c.arg("invocation_id"), rec_t.opt.some(c.result))),
